@@ -273,6 +273,14 @@ endpats: Final = {
     '"""': r'(?:[^"\\]|\\.|"(?!""))*"""',
 }
 StartLBrace = r".*?(?=\{(?!\{)){"
+
+
+def start_lbrace(quote: str) -> str:
+    """Literal text of an f-string up to the next replacement field, never running past the closing quote."""
+    body = endpats[quote][: -len(quote)]  # the pattern of the string body, without the closing quote
+    # a backslash does not escape a brace
+    body = body.replace(r"|\\.", r"|\\(?=\{)|\\.", 1)
+    return body + r"?(?=\{(?!\{)){"
 EndRBrace = r".*?(?=\}(?!\}))}"
 
 tabsize = 8
@@ -481,7 +489,7 @@ def next_psuedo_matches(state: TokenizerState) -> TokenInfo | None:
         quote = match.group("Quote") or '"'
         if "f" in token.lower():
             token_type = Token.FSTRING_START
-            pattern = choice(LBrace=StartLBrace, End=endpats[quote])
+            pattern = choice(LBrace=start_lbrace(quote), End=endpats[quote])
             state.add_prog(end, end, pattern=pattern, quote=quote, mode=ModeMiddle(state.parenlev))
         else:
             pattern = endpats[quote]
